@@ -1072,6 +1072,6 @@ class Parsent(object):
             try:
                 self.data = json.loads(self.body.decode('utf-8'),
                                        object_pairs_hook=odict)
-            except ValueError as ex:
+            except (ValueError, RecursionError) as ex:  # also nested too deep to decode
                 self.data = None
 
